@@ -244,7 +244,7 @@ def compare_copy(src, dst, route):
             c0 = np.array(s_["coords"][0])
             s_["coords"] = np.round(np.array(s_["coords"]) - c0, 5).tolist()
         skip |= {"name", "charge", "mult", "attrib"}
-    if route == "ensemble_from":
+    if route in ("ensemble_from", "extend_list_empty", "append_empty"):
         for f in ("coords", "charges"):
             if f in b:
                 b[f] = b[f][0]
@@ -319,6 +319,14 @@ class MolHeapAdapter:
                 elif r == "join":
                     # an end atom of either fragment (one bond, not one of the first two atoms) serves as attachment point
                     dst = getattr(ml, to).join(src, make(to), join_ap(src), 2)
+                elif r in ("extend_empty", "extend_list_empty", "append_empty"):
+                    dst = ml.ConformerEnsemble()
+                    if r == "extend_empty":
+                        dst.extend(src)
+                    elif r == "extend_list_empty":
+                        dst.extend([src])
+                    else:
+                        dst.append(src)
                 elif r == "ensemble_from":
                     dst = ml.ConformerEnsemble([src])     # the constructor form that copies geometry and charges
                 else:
